@@ -134,6 +134,10 @@ pub trait JsonParser {
                    None => false }) }),
             !is_io(r) && pvs(old(self).rv().pending) ==> r is Ok && r->Ok_0 is Some,
             !is_io(r) && ws_run(old(self).rv().pending) == old(self).rv().pending.len() ==> r is Ok && r->Ok_0 is None,
+            // (L2.resync of unit LEX) a byte that cannot start a value is a recoverable error that consumes the white space before it
+            // and exactly that byte
+            ({ let p = old(self).rv().pending; let w = ws_run(p) as int;
+               !is_io(r) && at(p, w) is Some && !starts_value(at(p, w)->0) ==> r is Err && final(self).rv().pending.len() == p.len() - w - 1 }),
             // the fatal IoError is reported ONLY when a read failed (unit LEX: lex_post)
             is_io(r) ==> has_fault(old(self).rv().pending),
             // the parser is deterministic: value / end / error and what is left pending are a FUNCTION of the pending bytes
@@ -205,6 +209,45 @@ pub open spec fn clean(p: Seq<Option<u8>>) -> bool
 {
     ws_run(p) == p.len() || (pvs(p) && match pv(p) { Some((v, n)) => 0 < n <= p.len() && clean(from(p, n)), None => false })
 }
+// ---- C06: NOISE between the values. A noise byte is a byte that is not white space and cannot start a value (`}` `]` `,` `:`
+// and every other stray byte); a noisy stream is a clean stream with such bytes anywhere between its values
+pub open spec fn noise_at(p: Seq<Option<u8>>) -> bool { let w = ws_run(p) as int; at(p, w) is Some && !starts_value(at(p, w)->0) }
+pub open spec fn noisy(p: Seq<Option<u8>>) -> bool
+    decreases p.len()
+{
+    let w = ws_run(p) as int;
+    w == p.len()
+    || (noise_at(p) && 0 <= w < p.len() && noisy(from(p, w + 1)))
+    || (!noise_at(p) && pvs(p) && match pv(p) { Some((v, n)) => 0 < n <= p.len() && noisy(from(p, n)), None => false })
+}
+// the values of a noisy stream: the noise bytes are skipped, nothing else changes
+pub open spec fn vals_n(p: Seq<Option<u8>>) -> Seq<JsonValue>
+    decreases p.len()
+{
+    let w = ws_run(p) as int;
+    if w == p.len() { Seq::empty() }
+    else if noise_at(p) { if 0 <= w < p.len() { vals_n(from(p, w + 1)) } else { Seq::empty() } }
+    else { match pv(p) { Some((v, n)) => if 0 < n <= p.len() { seq![v].add(vals_n(from(p, n))) } else { Seq::empty() }, None => Seq::empty() } }
+}
+// a clean stream is a noisy stream without noise, with the same values: the noisy reading generalises the clean one
+pub proof fn lemma_clean_is_noisy(p: Seq<Option<u8>>)
+    requires clean(p),
+    ensures noisy(p), vals_n(p) == vals(p), // @obl LOOP.noise.generalises_clean : C06 C01
+    decreases p.len(),
+{
+    let w = ws_run(p) as int;
+    lemma_pv(p);
+    if w == p.len() { }
+    else {
+        // the first byte behind the white space starts a value: pv(p) is Some only then
+        let t = p.subrange(w, p.len() as int);
+        lemma_tv(t);
+        assert(at(t, 0) == at(p, w));
+        assert(!noise_at(p));
+        let n = (pv(p)->0).1;
+        lemma_clean_is_noisy(from(p, n));
+    }
+}
 pub open spec fn inputs(fed: Seq<Context>) -> Seq<JsonValue> { Seq::new(fed.len(), |k: int| fed[k].inp()) }
 impl<S: Read> Master<S> {
     pub closed spec fn only_oa(&self) -> bool { self.cli.only_objects_and_arrays }
@@ -233,7 +276,10 @@ impl<S: Read> Master<S> {
             // two counters; nothing else reaches the pipeline (C01.stream, C11.fresh, C17.idx)
             r is Ok ==> exists|fed: Seq<Context>| #[trigger] fed_ok(fed, *old(index)) && fed_post(old(process), final(process), fed)
                 // ... and on a clean stream read to its end, without --only-objects-and-arrays, these are exactly the stream's values
-                && (r->Ok_0 is Continue && !self.only_oa() && clean(old(reader).pending()) ==> inputs(fed) == vals(old(reader).pending())), // @obl LOOP.stream : C01 C11 C17 C03
+                && (r->Ok_0 is Continue && !self.only_oa() && clean(old(reader).pending()) ==> inputs(fed) == vals(old(reader).pending()))
+                // ... and on a NOISY stream (C06: stray bytes between the values, any --on-error policy that lets the run go on) the
+                // pipeline is fed exactly the values, in order: the noise changes neither which values are processed nor their order
+                && (r->Ok_0 is Continue && !self.only_oa() && noisy(old(reader).pending()) ==> inputs(fed) == vals_n(old(reader).pending())), // @obl LOOP.stream : C01 C11 C17 C03 C06
             // Continue is returned only at the true end of the input, Break only after the pipeline said Break — and then at once,
             // so the caller can (and does) skip the remaining files
             r is Ok && r->Ok_0 is Continue ==> final(reader).pending().len() == 0, // @obl LOOP.stop : C14 C01
@@ -248,7 +294,7 @@ impl<S: Read> Master<S> {
         let ghost i0 = *index;
         let ghost n0 = reader.pending().len();
         let ghost p0 = reader.pending();
-        proof { assert(inputs(fed).add(vals(p0)) =~= vals(p0)); }
+        proof { assert(inputs(fed).add(vals(p0)) =~= vals(p0)); assert(inputs(fed).add(vals_n(p0)) =~= vals_n(p0)); }
         proof { assert forall|x: Seq<Context>| #[trigger] fed.add(x) =~= x by {} }
 //@@ loop 1
             invariant
@@ -260,6 +306,7 @@ impl<S: Read> Master<S> {
                 old(process).must_break() || !process.must_break(),
                 p0 == old(reader).pending(), n0 == p0.len(),
                 !self.only_oa() && clean(p0) ==> clean(reader.pending()) && inputs(fed).add(vals(reader.pending())) == vals(p0),
+                !self.only_oa() && noisy(p0) ==> noisy(reader.pending()) && inputs(fed).add(vals_n(reader.pending())) == vals_n(p0),
             decreases reader.pending().len(),
 //@@ loop-start 1
             let ghost ph = reader.pending();
@@ -285,6 +332,8 @@ impl<S: Read> Master<S> {
                         assert(fed_ok(fed, i0));
                         assert(fed_post(old(process), process, fed));
                         assert(!self.only_oa() && clean(p0) ==> inputs(fed) == vals(p0));
+                        assert(vals_n(ph) =~= Seq::<JsonValue>::empty());
+                        assert(!self.only_oa() && noisy(p0) ==> inputs(fed) == vals_n(p0));
                     }
 //@@ before "in_file_index += 1;"
                             proof {
